@@ -156,3 +156,135 @@ def check_decode(chk, m, fn, F):
                 bad = B.AND(here, B.NOT(bv.eq(ncnt, cnt)))
                 chk.ob("Q2.latch", inst_id, bad == 0, "count is unchanged away from the detent state" +
                        ("" if bad == 0 else "; changed for %s" % show(bad)), fn.loc, fn.name)
+
+
+def transition(B, bv, m, fn, F, vecs, state, dom):
+    """One call of rotenc_decode as a function of arbitrary field vectors: ({field: new vector}, covered, out-of-range).
+    vecs: {field name: BDD vector}; fields of rotenc_t not in vecs make the function fall outside the fragment."""
+    from ..domains.bvexec import expr_bv, Top
+    by_ptr = {paths.mkptr(("arg", 0), F[k][0]): k for k in vecs}
+    oob = [0]
+    cur_pc = [1]
+
+    def atom(e):
+        if e[0] == "ld":
+            if e[1] in by_ptr:
+                return vecs[by_ptr[e[1]]]
+            root, off, var = ptr_parts(e[1])
+            if root[0] == "g" and len(var) == 1:
+                t = const_table(m, root[1])
+                if t is None:
+                    raise Top("load from %s, which is not a constant integer table" % root[1])
+                vals, w = t
+                if var[0][1] * 8 != w or off % var[0][1]:
+                    raise Top("table %s indexed with a stride other than its element size" % root[1])
+                idx = expr_bv(var[0][0], bv, atom)
+                idx = bv.add(idx, bv.const(off // var[0][1], len(idx)))
+                res = bv.const(0, w)
+                inside = 0
+                for k, v in enumerate(vals):
+                    hit = bv.eq(idx, bv.const(k, len(idx)))
+                    inside = B.OR(inside, hit)
+                    res = bv.mux(hit, bv.const(v, w), res)
+                oob[0] = B.OR(oob[0], B.AND(cur_pc[0], B.NOT(inside)))
+                return res
+        if e == ("arg", 1):
+            return state
+        return None
+    out = dict(vecs)
+    covered = 0
+    for p in paths.enumerate_paths(fn, m):
+        if paths.is_assert_fail_path(p):
+            continue
+        pc = dom
+        for c, taken, inst in p.conds:
+            cur_pc[0] = pc
+            if inst is not None and inst.op == "switch":
+                x = expr_bv(c, bv, atom)
+                if taken == "default":
+                    bit = 1
+                    for cv, blk in inst["cases"]:
+                        bit = B.AND(bit, B.NOT(bv.eq(x, bv.const(cv & ((1 << len(x)) - 1), len(x)))))
+                else:
+                    bit = bv.eq(x, bv.const(taken & ((1 << len(x)) - 1), len(x)))
+                pc = B.AND(pc, bit)
+            else:
+                v = expr_bv(c, bv, atom)
+                bit = 0
+                for x in v:
+                    bit = B.OR(bit, x)
+                pc = B.AND(pc, bit if taken else B.NOT(bit))
+        if pc == 0:
+            continue
+        cur_pc[0] = pc
+        for name in vecs:
+            st = [e for e in p.events if e.kind == "store" and e.ptr == paths.mkptr(("arg", 0), F[name][0])]
+            if st:
+                width = len(vecs[name])
+                v = expr_bv(st[-1].val, bv, atom)
+                v = bv.trunc(v, width) if len(v) >= width else bv.zext(v, width)
+                out[name] = bv.mux(pc, v, out[name])
+        other = [e for e in p.events if e.kind in ("store", "memset", "memcpy") and e.ptr is not None
+                 and e.ptr not in by_ptr and ptr_parts(e.ptr)[0][0] != "g"]
+        if other:
+            raise Top("store to %s" % fmt(other[0].ptr))
+        covered = B.OR(covered, pc)
+    return out, covered, oob[0]
+
+
+def check_two_calls(chk, m, fn, F):
+    """Q5: the decoder as a black box over two consecutive calls.  For EVERY content of the rotenc_t object, feed state a and
+    then state b: the second call must change internal_count by the quadrature step from a to b and latch count exactly when
+    b is the detent - whatever the object held before the first call and however the decoder chooses to remember a.  This is
+    the history clause 'the previous state is the state passed to the previous call' decided without naming the field that
+    stores it (so it also covers a decoder that derives the previous state from something else)."""
+    from ..domains.bdd import BDD, BV
+    from ..domains.bvexec import Top
+    B = BDD()
+    bv = BV(B)
+    base = 0
+    vecs = {}
+    for name, (off, size) in sorted(F.items(), key=lambda kv: kv[1][0]):
+        vecs[name] = bv.inputs(base, size * 8)
+        base += size * 8
+    a = bv.inputs(base, 8)
+    b = bv.inputs(base + 8, 8)
+    dom = B.AND(bv.ult(a, bv.const(4, 8)), bv.ult(b, bv.const(4, 8)))
+    try:
+        mid, cov1, oob1 = transition(B, bv, m, fn, F, vecs, a, dom)
+        fin, cov2, oob2 = transition(B, bv, m, fn, F, mid, b, dom)
+    except Top as t:
+        chk.unknown("Q5.two-calls", "rotenc_decode; rotenc_decode", "outside the bit-vector fragment: %s" % t, fn.loc)
+        return
+    wi, wc = len(vecs["internal_count"]), len(vecs["count"])
+
+    def show(f):
+        asg = B.sat_one(f) or {}
+        val = lambda vec: sum((1 << k) for k, x in enumerate(vec) if isinstance(x, int) and x > 1 and asg.get(B.nodes[x][0]) and B.nodes[x][1:] == (0, 1))
+        # inputs are single-variable nodes: read them back by variable index
+        parts = []
+        pos = 0
+        for name, (off, size) in sorted(F.items(), key=lambda kv: kv[1][0]):
+            parts.append("%s=%d" % (name, sum((1 << k) for k in range(size * 8) if asg.get(pos + k))))
+            pos += size * 8
+        parts.append("first state=%d" % sum((1 << k) for k in range(8) if asg.get(pos + k)))
+        parts.append("second state=%d" % sum((1 << k) for k in range(8) if asg.get(pos + 8 + k)))
+        return ", ".join(parts)
+    gap = B.AND(dom, B.NOT(B.AND(cov1, cov2)))
+    n_bad = 0
+    for x in range(4):
+        for y in range(4):
+            want = 1 if (x, y) in CW else -1 if (x, y) in CCW else 0
+            here = B.AND(dom, B.AND(bv.eq(a, bv.const(x, 8)), bv.eq(b, bv.const(y, 8))))
+            exp = bv.add(mid["internal_count"], bv.const(want & ((1 << wi) - 1), wi))
+            bad = B.AND(here, B.NOT(bv.eq(fin["internal_count"], exp)))
+            inst_id = "state %d%d then %d%d" % (x >> 1, x & 1, y >> 1, y & 1)
+            chk.ob("Q5.two-calls", inst_id + " step", bad == 0,
+                   "whatever the object held, the second call moves internal_count by %+d" % want if bad == 0 else
+                   "the second call must move internal_count by %+d but does not, e.g. starting from %s" % (want, show(bad)), fn.loc, fn.name)
+            if y == 0 and x != 0:
+                # ARRIVING at the detent (a decoder may skip the latch while it rests there; that case needs the invariant of Q2)
+                bad = B.AND(here, B.NOT(bv.eq(fin["count"], bv.trunc(bv.lshr(fin["internal_count"], 2), wc))))
+                chk.ob("Q5.two-calls", inst_id + " latch", bad == 0,
+                       "arriving at the detent latches count = floor(internal_count / 4)" if bad == 0 else
+                       "count is not the latched position after arriving at the detent, e.g. starting from %s" % show(bad), fn.loc, fn.name)
